@@ -21,6 +21,11 @@ type layoutCfg struct {
 	multiBlk bool    // block comments spanning lines
 	crlf     bool
 	semis    bool // optional ';' after routes
+
+	// ablation switches: the same random draws are made, the feature is just not emitted
+	noInsideComments bool // no comment between two tokens of one statement
+	noFreeBreaks     bool // no line break between two tokens of one statement
+	noSameLine       bool // list items never share a line
 }
 
 // placed is one comment put into the text, and where.
@@ -38,6 +43,7 @@ type layouter struct {
 	sb   strings.Builder
 	cs   []placed
 	n    int
+	prev string // text of the previous token
 	last byte // 'l' if the text so far ends inside a line comment (a newline must follow)
 }
 
@@ -154,6 +160,9 @@ func (l *layouter) lineBreak(kind string, depth int, atStart bool) {
 	}
 	if !atStart {
 		if l.last != 'l' && l.r.Chance(cp) {
+			if strings.HasSuffix(l.prev, "/") {
+				l.sb.WriteString(" ") // "/" + "//c" would read as one comment
+			}
 			l.sb.WriteString(l.blanks(0))
 			if l.r.Chance(0.75) {
 				l.sb.WriteString(l.lineComment("trailing@" + kind))
@@ -193,14 +202,23 @@ func (l *layouter) lineBreak(kind string, depth int, atStart bool) {
 	l.sb.WriteString(l.indent(depth))
 }
 
-func render(p *program, r *kit.Rand, lc layoutCfg) (string, []placed) {
-	l := &layouter{r: r, lc: lc}
+// render is a pure function of (program, seed, cfg); the random decisions of
+// each gap come from a generator derived from (seed, token index), so that
+// switching a feature off (ablation) leaves every other decision unchanged.
+func render(p *program, seed uint64, lc layoutCfg) (string, []placed) {
+	base := kit.NewRand(seed)
+	l := &layouter{r: base, lc: lc}
 	if len(p.toks) == 0 {
 		return "", nil
 	}
 	depth := 0
 	exotic := lc.mode == layExotic
 	for i, t := range p.toks {
+		l.r = kit.NewRand(base.At(uint64(i)))
+		l.prev = ""
+		if i > 0 {
+			l.prev = p.toks[i-1].s
+		}
 		first := len(l.cs)
 		if (t.g == gClose || (t.g == gLineStrict && t.s == "}")) && depth > 0 {
 			depth--
@@ -213,7 +231,10 @@ func render(p *program, r *kit.Rand, lc layoutCfg) (string, []placed) {
 			} else if exotic && l.r.Chance(0.08) {
 				l.sb.WriteString(l.blanks(1))
 			}
-			if exotic && l.r.Chance(lc.commentP*0.3) {
+			if exotic && !lc.noInsideComments && l.r.Chance(lc.commentP*0.3) {
+				if strings.HasSuffix(l.prev, "/") && t.g == gGlue {
+					l.sb.WriteString(" ")
+				}
 				l.sb.WriteString(l.blockComment("inline@"+gapNames[t.g], false))
 				if t.g == gSpace || l.r.Bool() {
 					l.sb.WriteString(l.blanks(1))
@@ -222,7 +243,14 @@ func render(p *program, r *kit.Rand, lc layoutCfg) (string, []placed) {
 		case gFree, gFreeOpt:
 			done := false
 			if exotic {
-				switch l.r.Pick(30, 2, 2, 1, 1) {
+				choice := l.r.Pick(30, 2, 2, 1, 1)
+				if choice >= 2 && lc.noInsideComments {
+					choice = 0
+				}
+				if (choice == 1 || choice >= 3) && lc.noFreeBreaks {
+					choice = 0
+				}
+				switch choice {
 				case 1: // plain line break
 					l.sb.WriteString(l.nl() + l.indent(depth))
 					done = true
@@ -243,10 +271,10 @@ func render(p *program, r *kit.Rand, lc layoutCfg) (string, []placed) {
 				}
 			}
 		case gLine, gLineStrict, gOpen, gClose:
-			inline := exotic && t.g != gLineStrict && i > 0 && l.last != 'l' && l.r.Chance(0.04)
+			inline := exotic && t.g != gLineStrict && i > 0 && l.last != 'l' && l.r.Chance(0.04) && !lc.noSameLine
 			if inline {
 				l.sb.WriteString(l.blanks(1))
-				if l.r.Chance(lc.commentP * 0.3) {
+				if l.r.Chance(lc.commentP*0.3) && !lc.noInsideComments {
 					l.sb.WriteString(l.blockComment("inline@"+gapNames[t.g], false) + l.blanks(1))
 				}
 			} else {
@@ -268,6 +296,8 @@ func render(p *program, r *kit.Rand, lc layoutCfg) (string, []placed) {
 		}
 	}
 	// end of file
+	l.r = kit.NewRand(base.At(uint64(len(p.toks))))
+	l.prev = p.toks[len(p.toks)-1].s
 	if lc.mode != layCanonical {
 		first := len(l.cs)
 		if l.r.Chance(lc.commentP) {
